@@ -53,6 +53,9 @@ pub struct DFile {
     /// the OLD state of the file does not end with a newline (git then prints `\ No newline at end of file` inside the hunk)
     #[serde(default)]
     pub old_no_trailing_newline: bool,
+    /// CRLF line terminators in the new state (and in the lines the old state shares with it)
+    #[serde(default)]
+    pub crlf: bool,
 }
 
 #[derive(Clone, Debug, Serialize, Deserialize, Hash, PartialEq, Eq)]
@@ -243,10 +246,13 @@ pub fn world(c: &DriftCase) -> World {
     let mut new_text = vec![];
     for f in &c.files {
         let lang = langs::lang(SUFFIXES[f.suffix % SUFFIXES.len()].1);
-        let b = builder::build(lang, &events_of(f, &paths), false);
+        let b = builder::build(lang, &events_of(f, &paths), f.crlf);
         let mut t = b.text.clone();
         if f.no_trailing_newline && t.ends_with('\n') {
             t.pop();
+            if t.ends_with('\r') {
+                t.pop();
+            }
         }
         new_text.push(t);
         built.push(b);
@@ -579,8 +585,8 @@ pub fn file_strategy() -> BoxedStrategy<DFile> {
         .prop_map(|(name, affects, form, multiline, indent, tag_lines, severity)| Item::Open { name, affects, form, multiline, indent, tag_lines, severity });
     let close = (any::<u8>(), prop_oneof![3 => Just(0u8), 1 => 0u8..5]).prop_map(|(form, indent)| Item::Close { form, indent });
     let item = prop_oneof![2 => open, 2 => close, 5 => any::<u16>().prop_map(Item::Code)];
-    (0..SUFFIXES.len(), 0u8..4, proptest::collection::vec(item, 3..30), gitcase::edits_strategy(9), prop_oneof![6 => Just(0u8), 1 => Just(1u8), 1 => Just(2u8), 1 => Just(3u8)], proptest::bool::weighted(0.15), proptest::bool::weighted(0.25))
-        .prop_map(|(suffix, dir, items, edits, fate, no_trailing_newline, old_no_trailing_newline)| DFile { suffix, dir, items, edits, fate, no_trailing_newline, old_no_trailing_newline })
+    (0..SUFFIXES.len(), 0u8..4, proptest::collection::vec(item, 3..30), gitcase::edits_strategy(9), prop_oneof![6 => Just(0u8), 1 => Just(1u8), 1 => Just(2u8), 1 => Just(3u8)], proptest::bool::weighted(0.15), proptest::bool::weighted(0.25), proptest::bool::weighted(0.1))
+        .prop_map(|(suffix, dir, items, edits, fate, no_trailing_newline, old_no_trailing_newline, crlf)| DFile { suffix, dir, items, edits, fate, no_trailing_newline, old_no_trailing_newline, crlf })
         .boxed()
 }
 
@@ -626,7 +632,7 @@ pub fn small_scope_cases() -> Vec<DriftCase> {
     for sc in scripts {
         for unified in [0u8, 3] {
             out.push(DriftCase {
-                files: vec![DFile { suffix: py, dir: 0, items: items.clone(), edits: sc.clone(), fate: 0, no_trailing_newline: false, old_no_trailing_newline: false }],
+                files: vec![DFile { suffix: py, dir: 0, items: items.clone(), edits: sc.clone(), fate: 0, no_trailing_newline: false, old_no_trailing_newline: false, crlf: false }],
                 mode: DiffMode { unified, kind: 0, algo: 0, renames: false },
                 hostile: false,
                 deleted_extra_file: false,
@@ -638,7 +644,7 @@ pub fn small_scope_cases() -> Vec<DriftCase> {
 }
 
 pub fn run(run: &mut Run) {
-    run.rule = "enumerated small scope: every edit script of <= 2 single-line operations at every position of a fixed nine-line Python file with nested, linked blocks under -U0 and -U3 (1 624 cases). random: 1..4 files of random suffixes (root or sub-directories, one with a space), each a balanced list of own-line tag comments (any comment form of the language, 15% multi-line comments, 12% start tags spread over several lines, indentation), blocks named from a pool of 5 (duplicates, unnamed) with affects lists of 1..3 references (same file, other file, missing file, missing name, cycles), 20% of them with severity warning / Info (reported, not failing) and code lines; an edit script of 0..8 operations on new-side lines (add k lines, delete k lines at a gap, replace a line incl. tag lines) from which the old state is derived; file fates modified / renamed / new / untouched / an extra deleted file; in 25% further entries in the same diff (a binary file, an added empty file, a changed file of unknown suffix holding unbalanced tags, a file emptied, a mode-only change, a symbolic link replaced by a regular file); hostile removed lines (`-- x`, `--- a/f`, `@@ -1 +1 @@`, …) in 10%; missing trailing newline in 15%; real git in a generated mode (-U0..10, unstaged/--cached/HEAD/commit-to-commit, 4 diff algorithms, -M). Oracle part 1: flag per block from an independent reader of git's diff (must / must-not / unspecified zones), part 2: affects diagnostics = reference model over the listed flags, exit status; part 3: after touching every linked block the run passes. Non-trivial = a file with >= 2 hunks, a must-modified block with affects and a must-not block.".into();
+    run.rule = "enumerated small scope: every edit script of <= 2 single-line operations at every position of a fixed nine-line Python file with nested, linked blocks under -U0 and -U3 (1 624 cases). random: 1..4 files of random suffixes (root or sub-directories, one with a space), each a balanced list of own-line tag comments (any comment form of the language, 15% multi-line comments, 12% start tags spread over several lines, indentation), blocks named from a pool of 5 (duplicates, unnamed) with affects lists of 1..3 references (same file, other file, missing file, missing name, cycles), 20% of them with severity warning / Info (reported, not failing) and code lines; an edit script of 0..8 operations on new-side lines (add k lines, delete k lines at a gap, replace a line incl. tag lines) from which the old state is derived; file fates modified / renamed / new / untouched / an extra deleted file; in 25% further entries in the same diff (a binary file, an added empty file, a changed file of unknown suffix holding unbalanced tags, a file emptied, a mode-only change, a symbolic link replaced by a regular file); hostile removed lines (`-- x`, `--- a/f`, `@@ -1 +1 @@`, …) in 10%; missing trailing newline in 15% (new state) / 25% (old state); CRLF files in 10%; real git in a generated mode (-U0..10, unstaged/--cached/HEAD/commit-to-commit, 4 diff algorithms, -M). Oracle part 1: flag per block from an independent reader of git's diff (must / must-not / unspecified zones), part 2: affects diagnostics = reference model over the listed flags, exit status; part 3: after touching every linked block the run passes. Non-trivial = a file with >= 2 hunks, a must-modified block with affects and a must-not block.".into();
     run.assumptions = vec![
         "file names avoid characters git C-quotes".into(),
         "mixed -/+ groups count through their added lines only (removed lines of a mixed group are not asserted: see K2 in DESIGN.md)".into(),
